@@ -1160,7 +1160,8 @@ func (run *iRun) probeLeaf(mst string, l *IPred) (v *core.Violation) {
 	}
 	hasKey := false
 	for _, s := range run.model.ofMst(string(name)) {
-		if _, ok := s.tagMap[l.Key]; ok && s.flushed {
+		// (un-flushed series count too: they become searchable at any moment)
+		if _, ok := s.tagMap[l.Key]; ok {
 			hasKey = true
 		}
 	}
@@ -1258,8 +1259,6 @@ func causeOf(p *IPred, a map[string]string, sep bool) string {
 		return "tree"
 	case p.Op == "=" || p.Op == "!=":
 		return "string_leaf"
-	case sep:
-		return "sep_bytes"
 	}
 	cls := a["regex_class"]
 	switch {
@@ -1267,13 +1266,16 @@ func causeOf(p *IPred, a map[string]string, sep bool) string {
 		return "anchored_regex_matching_empty"
 	case cls == "anchored":
 		return "anchored_literal"
-	case cls == "literal" && strings.Contains(p.Val, "\\"):
+	case cls != "literal":
+		return "nonliteral_regex"
+	case sep:
+		// a plain literal pattern, separator / escape bytes in the pattern or in the values it meets
+		return "sep_bytes"
+	case strings.Contains(p.Val, "\\"):
 		// a literal written with escapes (/web\|db/, /\.\*/): its unescaped text reads like another pattern
 		return "escaped_literal_regex"
-	case cls == "literal":
-		return "literal_regex"
 	}
-	return "nonliteral_regex"
+	return "literal_regex"
 }
 
 func isMismatchKind(k string) bool {
